@@ -7,10 +7,14 @@
 package zzsym
 
 import (
+	"encoding/hex"
 	"encoding/json"
 	"fmt"
 	"math/big"
 	"os"
+
+	"github.com/ontio/ontology-crypto/keypair"
+	osig "github.com/ontio/ontology-crypto/signature"
 )
 
 type replayFile struct {
@@ -185,3 +189,71 @@ func ObserveBytes(label string, b []byte) {
 // BytesChoose returns arbitrary bytes whose length (0..max) is explored value by value
 // (concrete length, symbolic content): cheaper than BytesUpTo when offsets depend on it.
 func BytesChoose(n string, max int) []byte { return Bytes(n, Choose(n+".len", max+1)) }
+
+// ---- signatures ---------------------------------------------------------------------------
+
+// KeyHex are real P-256 public keys (compressed); privHex the matching private keys.
+var KeyHex = []string{
+	"039d33596861caa2a107af3cabf184df2b352d59f92960d548e2548470af90d2ba",
+	"025ef9a33bf9de5620695af6db9f6334d09cc4e2c57fe171f6d9e1053a9f533749",
+	"0314ba31a5af08ddee4b34a5570e86ce3c74f832107163becd867ae85088b790d2",
+	"030562d8d2b0f37b45ba0eefa9c66e83080a74305601b72ba613cfdf3253bfa3e1",
+	"02b70d844f2f82feeca5cdbec3f0f870807408e6a9781b5e8183574ddb15ea7a5a",
+	"034bd0188f7b87f958fdde01c72ddacb6ddc2d65bfe047af047bba6c1d8459e075",
+	"032cf3f13186e23bf4d7b1ef069c324da5c231ddae28d250b834e00d0f8f3cb480",
+	"027f089cdef1a143e231b9cf782aa2fd4663ef3f347da1c646c6cc32819cab02ad",
+}
+
+var privHex = []string{
+	"120200000000000000000000000000000000000000000000000000000000000022d7039d33596861caa2a107af3cabf184df2b352d59f92960d548e2548470af90d2ba",
+	"120200000000000000000000000000000000000000000000000000000000000041c6025ef9a33bf9de5620695af6db9f6334d09cc4e2c57fe171f6d9e1053a9f533749",
+	"120200000000000000000000000000000000000000000000000000000000000060b50314ba31a5af08ddee4b34a5570e86ce3c74f832107163becd867ae85088b790d2",
+	"12020000000000000000000000000000000000000000000000000000000000007fa4030562d8d2b0f37b45ba0eefa9c66e83080a74305601b72ba613cfdf3253bfa3e1",
+	"12020000000000000000000000000000000000000000000000000000000000009e9302b70d844f2f82feeca5cdbec3f0f870807408e6a9781b5e8183574ddb15ea7a5a",
+	"1202000000000000000000000000000000000000000000000000000000000000bd82034bd0188f7b87f958fdde01c72ddacb6ddc2d65bfe047af047bba6c1d8459e075",
+	"1202000000000000000000000000000000000000000000000000000000000000dc71032cf3f13186e23bf4d7b1ef069c324da5c231ddae28d250b834e00d0f8f3cb480",
+	"1202000000000000000000000000000000000000000000000000000000000000fb60027f089cdef1a143e231b9cf782aa2fd4663ef3f347da1c646c6cc32819cab02ad",
+}
+
+
+// PubKey returns table key i.
+func PubKey(i int) keypair.PublicKey {
+	b, _ := hex.DecodeString(KeyHex[i])
+	k, err := keypair.DeserializePublicKey(b)
+	if err != nil {
+		panic("zzsym: bad table key")
+	}
+	return k
+}
+
+// Signature returns a serialized signature over msg made by table key `signer`
+// (0 <= signer < len(KeyHex)); any other signer value yields a well-formed signature by a key
+// outside the table. Under the engine the bytes are opaque and only their provenance
+// (signer, msg) is known: Verify(key, data, sig) holds iff key is table key `signer` and data == msg.
+func Signature(n string, signer int, msg []byte) []byte {
+	_ = name(n)
+	var pri keypair.PrivateKey
+	if signer >= 0 && signer < len(privHex) {
+		b, _ := hex.DecodeString(privHex[signer])
+		k, err := keypair.DeserializePrivateKey(b)
+		if err != nil {
+			panic("zzsym: bad private key: " + err.Error())
+		}
+		pri = k
+	} else {
+		var err error
+		pri, _, err = keypair.GenerateKeyPair(keypair.PK_ECDSA, keypair.P256)
+		if err != nil {
+			panic("zzsym: keygen: " + err.Error())
+		}
+	}
+	sig, err := osig.Sign(osig.SHA256withECDSA, pri, msg, nil)
+	if err != nil {
+		panic("zzsym: sign: " + err.Error())
+	}
+	b, err := osig.Serialize(sig)
+	if err != nil {
+		panic("zzsym: serialize sig: " + err.Error())
+	}
+	return b
+}
